@@ -1,5 +1,5 @@
 (* C05 — Reverse mirrors coordinates (parts in mirrored order, none lost). *)
-From GTS Require Import Base Arith Loc Seq BaseLemmas LocProofs EditProofs SeqProofs JoinDen JoinLift RotateProofs RotateJoin InsertSeq Region RegionProofs ResizeProofs RevCompProofs PartialProofs.
+From GTS Require Import Base Arith Loc Seq BaseLemmas LocProofs EditProofs SeqProofs JoinDen JoinLift RotateProofs RotateJoin InsertSeq Region RegionProofs ResizeProofs RevCompProofs PartialProofs ReverseInvol.
 From Coq Require Import Permutation.
 Open Scope Z_scope.
 
@@ -26,6 +26,23 @@ Example C05_joins_example :
   wf_all range_wf l = true /\ k1_afterb (fun x => reverse x 8) l = true /\
   reverse l 8 = Ok (Joined [Complemented (Joined [Ranged 0 2 true false; Ranged 3 4 false false]); Point 5; Ranged 6 8 false true]).
 Proof. vm_compute. repeat split; reflexivity. Qed.
+
+(* mirroring twice is the identity on locations: every between-site, point,
+   range (s < e, either partial marker) and ambiguous range, and the complement
+   of each, comes back exactly -- coordinates and partial markers, the markers
+   having swapped ends in between *)
+Theorem C05_reverse_involution_contiguous : forall L l, contiguous l -> range_wf l = true ->
+  exists l', reverse l L = Ok l' /\ reverse l' L = Ok l.
+Proof. exact reverse_leaf_involution. Qed.
+Print Assumptions C05_reverse_involution_contiguous.
+Theorem C05_reverse_involution_complement : forall L l, contiguous l -> range_wf l = true ->
+  exists l', reverse (Complemented l) L = Ok l' /\ reverse l' L = Ok (Complemented l).
+Proof. exact reverse_complement_leaf_involution. Qed.
+Print Assumptions C05_reverse_involution_complement.
+Example C05_reverse_involution_example :
+  reverse (Ranged 2 5 true false) 8 = Ok (Ranged 3 6 false true) /\
+  reverse (Ranged 3 6 false true) 8 = Ok (Ranged 2 5 true false).
+Proof. vm_compute. split; reflexivity. Qed.
 
 (* Reverse is an involution on residues *)
 Theorem C05_reverse_bytes_involution : forall s, feats s = [] ->
